@@ -5,6 +5,8 @@ import Blackbird.Listener
 import Blackbird.Program
 import Blackbird.Lemmas.Dict
 import Blackbird.Lemmas.ToyScalar
+import Blackbird.Lemmas.UnparseTdm
+import Blackbird.Props.C09
 
 namespace Blackbird
 
@@ -106,5 +108,52 @@ def tdmTables : Tables ZS :=
   ⟨[("p0", .arr .float 1 2 [.num (.real ⟨1000⟩), .num (.real ⟨2000⟩)])], [.pname "p0"]⟩
 
 example : evalExpr tdmTables (.var "p0" ⟨5, 6⟩) = .ok (.atom (.pname "p0")) := by decide
+
+
+/-! ### the whole round trip of a tdm program -/
+
+section roundtrip
+variable [Fmt K] [LawfulFmt K]
+
+/-- **C15, round trip.** For every covered program of type tdm (int / float p-arrays and other
+variables of any shape, scalars, operations taking p-arrays by name, numbers, booleans, strings and
+lists) and every layout of line ends: the parser accepts the serialised tokens, and loading yields
+the same metadata, the same operations with the p-arrays still passed BY NAME, every variable with
+exactly its data, and no free parameters (so the program is not a template). -/
+theorem C15_tdm_program_loads_back (o : SetOrder Int) (fs : FS) (cwd : String) (T0 : Tables K) (p : Program K)
+    (sc : Script) (hp : TdmProgramOK p) (h : scriptOfTdm p = .ok sc) :
+    (loadStep o fs cwd T0 sc).1 =
+      .ok ⟨p.name, p.version, p.target, p.ptype, p.ops, p.vars, [], p.ops.flatMap (·.modes)⟩ ∧
+    ∀ ml lay final, parseScript (sc.toks ml lay final) = some sc :=
+  load_scriptOfTdm o fs cwd T0 p sc hp h
+
+/-- a p-array argument of a covered operation is written as its bare name and read back as the name -/
+theorem C15_reference_roundtrip (vars : List (String × Val K)) (T : Tables K) (hT : TdmTables vars T) (s : String)
+    (hs : isPType s = true) (dt : DType) (r c : Nat) (flat : List (SExpr K)) (hmem : (s, Val.arr dt r c flat) ∈ vars) :
+    tdmArgOfVal (K := K) (.atom (.pname s)) = .ok (.expr (.var s ⟨0, 0⟩)) ∧
+    evalArgVal T (.expr (.var s ⟨0, 0⟩)) = .ok (.atom (.pname s)) := by
+  have h1 : tdmArgOfVal (K := K) (.atom (.pname s)) = .ok (.expr (.var s ⟨0, 0⟩)) := by simp [tdmArgOfVal, hs]
+  exact ⟨h1, (eval_tdmArg vars T hT (.atom (.pname s)) _ (show TdmArgOK vars (.atom (.pname s)) from ⟨hs, dt, r, c, flat, hmem⟩) h1).1⟩
+
+end roundtrip
+
+def exTdm : Program ZS :=
+  { name := "t", version := "1.0", target := (some "TD2", []),
+    ptype := (some "tdm", [("temporal_modes", .atom (.num (.int 2)))]),
+    ops := [⟨"Sgate", some ([.atom (.num (.real ⟨500⟩)), .atom (.pname "p0")], []), [1]⟩,
+            ⟨"MeasureHomodyne", some ([], [("phi", .atom (.pname "p12"))]), [0]⟩],
+    vars := [("p0", .arr .float 1 2 [.num (.real ⟨1000⟩), .num (.real ⟨-2500⟩)]),
+             ("p12", .arr .int 2 1 [.num (.int 3), .num (.int 4)]),
+             ("x", .atom (.num (.real ⟨250⟩)))],
+    params := [], modes := [1, 0] }
+
+/-- the model evaluated on a concrete tdm program: serialise, parse, load gives the program back -/
+example :
+    (match scriptOfTdm exTdm with
+     | .ok sc =>
+       decide (parseScript (sc.toks ⟨0, 0, 0, 0, [], false⟩ [(1, []), (1, []), (1, []), (1, []), (1, [])] 1) = some sc) &&
+       decide ((loadStep SetOrder.id ⟨"", []⟩ "" Tables.empty sc).1 = .ok exTdm)
+     | .error _ => false) = true := by
+  decide +kernel
 
 end Blackbird
